@@ -1,4 +1,5 @@
 import ErgoVerif.Lemmas.HsReader
+import ErgoVerif.Lemmas.HsFrame
 /-!
 # C16 (handshake part) — the handshake message reader on hostile input
 
@@ -88,6 +89,14 @@ theorem C16_reader_reads (chunk : Bytes) (conn : List Bytes) (hne : ∀ r ∈ co
   simp only [readMessage]
   simp only [maxMsg] at this
   omega
+
+/-- **Writer/reader round trip**: a frame as `writeMessage` builds it (payload of at most 65535 bytes),
+    delivered in ANY segmentation — part of it possibly already in the initial chunk — is read back as
+    exactly that payload. -/
+theorem C16_reader_roundtrip (p chunk : Bytes) (conn : List Bytes) (hp : p.length ≤ Hs.maxLen)
+    (hsegs : ∀ r ∈ conn, r ≠ [] ∧ r.length ≤ Hs.readBuf) (hall : chunk ++ conn.flatten = frame p) :
+    (readMessage chunk conn).res = .ok p :=
+  loop_roundtrip p hp conn chunk _ _ _ hsegs hall (Or.inl rfl)
 
 /-- **Time, full statement**: a call with read timeout `t` is over within `t`, whatever the peer does. -/
 def C16_reader_time_full : Prop :=
